@@ -11,7 +11,7 @@ cls("Scheduler", n_rollback=Int, last_notified=Str)  # ghost: number of ROLLBACK
 cls("FailureManager", n_recover=Int, recover_failed=Int)  # ghost: number of recover() calls, and how many of them raised
 cls("StreamFlowContext", scheduler=Scheduler, failure_manager=FailureManager)
 cls("RollbackFailureManager", bases=["FailureManager"], context=StreamFlowContext, max_retries=Opt[Int], retry_delay=Opt[Int],
-    _retry_requests=Dict[Str, RecoveryRequest])
+    _retry_requests=Dict[Str, RecoveryRequest], n_recover_runs=Int, n_recover_failed=Int)  # ghost: _recover() calls / how many raised
 cls("DummyFailureManager", bases=["FailureManager"], context=StreamFlowContext)
 cls("Job", name=Str)
 cls("Step", workflow=Workflow)
@@ -123,3 +123,34 @@ def _(step: Step, job: Job):
     raises(KeyboardInterrupt, ensures=step.workflow.context.failure_manager.n_recover == old(step.workflow.context.failure_manager.n_recover) and GHOST.failed == 0)
     raises(Exception, ensures=step.workflow.context.failure_manager.n_recover == old(step.workflow.context.failure_manager.n_recover) + GHOST.failed
            and step.workflow.context.failure_manager.recover_failed == old(step.workflow.context.failure_manager.recover_failed) + GHOST.failed)
+
+
+# ---- the rollback manager's own failure handler: a failed recovery (retries exhausted) must propagate ----------------
+const("logging.INFO", Int)
+const("logging.DEBUG", Int)
+const("logging.WARNING", Int)
+
+
+@extern("logger.isEnabledFor")
+def _(level: Int) -> Bool:
+    """any answer: the outcome must not depend on the configured log level"""
+
+
+@extern("asyncio.sleep")
+def _(delay: Int): ...
+
+
+@assumed("streamflow/recovery/failure_manager.py", "RollbackFailureManager._recover")
+def _(self: RollbackFailureManager, failed_job: Job, failed_step: Step):
+    assigns(self.n_recover_runs, self.n_recover_failed)
+    ensures(self.n_recover_runs == old(self.n_recover_runs) + 1 and self.n_recover_failed == old(self.n_recover_failed))
+    raises(FailureHandlingException, ensures=self.n_recover_runs == old(self.n_recover_runs) + 1 and self.n_recover_failed == old(self.n_recover_failed) + 1)
+
+
+@contract("streamflow/recovery/failure_manager.py", "RollbackFailureManager._do_handle_failure")
+def _(self: RollbackFailureManager, job: Job, step: Step):
+    note("the undecorated body; the @recoverable wrapper around it is verified separately (recoverable.wrapper@Try#0)")
+    assigns(self.n_recover_runs, self.n_recover_failed)
+    # exactly one recovery attempt; it returns normally only if that attempt succeeded, whatever the log level
+    ensures(self.n_recover_runs == old(self.n_recover_runs) + 1 and self.n_recover_failed == old(self.n_recover_failed))
+    raises(FailureHandlingException, ensures=self.n_recover_runs == old(self.n_recover_runs) + 1 and self.n_recover_failed == old(self.n_recover_failed) + 1)
